@@ -59,6 +59,7 @@ Next == /\ n < MaxSteps
            \/ \E i \in 1..Len(text) : CanInsert(text, i) /\ Step(InsertAfter(text, i, [k |-> "comment"]), <<"comment", i>>)
            \/ \E i \in 1..Len(text), k \in {20, 21, 22}, kind \in {"blank", "comment"} :
                  /\ SecAt(text, i) = "A" /\ CanInsert(text, i) /\ Len(text) < 40
+                 /\ n = MaxSteps - 1          \* as the last step only: the long texts are not transformed further
                  /\ Step(InsertMany(text, i, [k |-> kind], k), <<"many-" \o kind, i, k>>)
            \/ /\ R!Wrap(text) = "YES" /\ \A i \in R!BodyIdx(text, R!TitleOf(text, "A")) : text[i].k = "data"
               /\ \E per \in 1..(2 * R!NCols(R!Rows(text))) : Step(ReWrapped(text, per), <<"rewrap", per>>)
